@@ -72,7 +72,7 @@ def run(ctx, pid):
                                        timeout=(3000 if thorough else 900) * scale,
                                        env={'VERIF_TIME_SCALE': str(scale)})
     if rc != 0 or data is None:
-        raise RuntimeError('shutdown driver failed (rc=%s): %s' % (rc, log[-1500:]))
+        sandbox.driver_failed('shutdown', rc, log)
     forms = FORMULAS[pid]
     consts = dict(CONSTS, TermTenths=str(int(100 * scale)),
                   GuardTenths=str(min(290, int(250 * scale))))
